@@ -126,6 +126,11 @@ IsOp(o) == last.op = o
 \* C03: exactly the target-grid voxels that intersect the inputs
 C03_Exact == IsOp("ChangeZoom") =>
                last.res = ChangeZoomDef(last.pre, last.a[1], last.a[2])
+\* the definitional answer for a list is the union of the definitional answers for its members: the lemma behind the
+\* "<Op>ListIsUnionOfMembers" laws that the harness states on real results for zooms the model cannot hold
+C03_ListIsUnion == IsOp("ChangeZoom") =>
+               ChangeZoomDef(last.pre, last.a[1], last.a[2]) =
+                  UNION {ChangeZoomDef({s}, last.a[1], last.a[2]) : s \in last.pre}
 C03_AtTarget == IsOp("ChangeZoom") =>
                \A t \in last.res : t[1] = last.a[1] /\ t[4] = last.a[2]
 \* zoom-in partitions, zoom-out gives the single ancestor (stated per voxel)
